@@ -262,3 +262,23 @@ CHECKS["C02"] = dict(
         technique="exhaustive enumeration of length x fill x salt x cost grids on the implementation against reference implementations",
         ref="DESIGN.md 3/C02"),
 )
+
+CHECKS["C18"] = dict(
+    level="exploration",
+    jobs=lambda tier: [dict(name="c18", variant="o2", sources=["e_c18.c"] + RT)],
+    coverage=_cov("every byte string of length <= 3 (16.6 M) and every printable string of length 4 (78 M) classified by crypt_checksalt and by an "
+                  "independent classifier; crypt_rn run on every string of length <= 3 and on the method-shaped length-4 strings; every "
+                  "'$'+tag+'$' with tags of length <= 3 over 65 characters; every generated setting of the grammar (and each successful result); "
+                  "every recognised string re-classified with 3 tails (1, 40 and 400 characters); crypt_preferred_method and NULL-prefix gensalt "
+                  "vs preferred-prefix gensalt for 50 entropy fills x 3 counts; distinct_nontrivial = distinct recognised short strings"),
+    assumptions=["the strong set is taken from the property text ($y$, $gy$, $7$, $2b$, $2y$, $2a$, $6$)", "configurations other than the full build are C19's subject"],
+    nonvacuous=lambda s, t: None if s.get("length4", 0) > 70000000 and s.get("crypt_calls", 0) > 1000000 and s.get("recognised", 0) > 100000 else "enumeration incomplete",
+    deadline=dict(quick=300, thorough=1200),
+    manifest=dict(
+        text="Exhaustive enumeration of the complete space of short settings (all byte strings up to length 3, all printable strings of length 4, "
+             "all short tags) against crypt_checksalt, crypt_rn and an independent classifier, plus tail-independence and the preferred-method/"
+             "NULL-prefix equalities.",
+        note="classifier written from crypt.5, crypt_checksalt.3 and the property's list of strong methods; longer strings are covered through the tag + tail argument and the generated grammar settings.",
+        technique="exhaustive enumeration of all short inputs on the implementation against an independent classifier",
+        ref="DESIGN.md 3/C18"),
+)
